@@ -5,11 +5,13 @@ import (
 	"context"
 	"fmt"
 	"io"
+	"net"
 	"net/http"
 	"net/http/httptest"
 	"sort"
 	"strings"
 	"sync"
+	"time"
 
 	"github.com/gorilla/mux"
 	f_log "github.com/transparency-dev/formats/log"
@@ -17,10 +19,12 @@ import (
 	"github.com/transparency-dev/witness/internal/distribute/rest"
 	"github.com/transparency-dev/witness/internal/feeder/bastion"
 	ihttp "github.com/transparency-dev/witness/internal/http"
+	"github.com/transparency-dev/witness/internal/persistence/inmemory"
 	"github.com/transparency-dev/witness/omniwitness"
 	"github.com/transparency-dev/witness/verifmc/ev"
 	"github.com/transparency-dev/witness/verifmc/uni"
 	"github.com/transparency-dev/witness/verifmc/wh"
+	"golang.org/x/mod/sumdb/note"
 	"golang.org/x/time/rate"
 )
 
@@ -597,6 +601,15 @@ func c12MainLists(run *ev.Run, u *uni.U) {
 		return fmt.Sprintf("  - Origin: %s\n    URL: %s\n    PublicKey: %s\n    Feeder: %s\n", origin, url, k.VKey, ft)
 	}
 	mixed := "Logs:\n"
+	// (In the mixed configuration the push-only log is listed SECOND, so that
+	// entries with a feeder follow it.)
+	for i, ft := range []string{"serverless", "none", "sumdb", "pixel", "rekor", "tiles"} {
+		k := u.K1
+		if i%2 == 1 {
+			k = u.K2
+		}
+		mixed += entry("verif.example/main/mixed/"+ft, ft, k)
+	}
 	for i, ft := range types {
 		k := u.K1
 		if i%2 == 1 {
@@ -604,12 +617,68 @@ func c12MainLists(run *ev.Run, u *uni.U) {
 		}
 		y := "Logs:\n" + entry("verif.example/main/"+ft+"/0", ft, k) + entry("verif.example/main/"+ft+"/1", ft, k)
 		mainLogLists(run, "two-"+ft+"-logs", "a configuration of two "+ft+" logs", []byte(y))
-		mixed += entry("verif.example/main/mixed/"+ft, ft, k)
 		run.Add("main_configurations", 1)
 	}
 	mainLogLists(run, "one-log-of-every-feeder-type", "a configuration with one log of every feeder type", []byte(mixed))
 	run.Add("main_configurations", 1)
+	// Two entries that would share an ID (the same origin line, listed with
+	// two keys / two URLs): Main refuses to start.
+	for _, ft := range []string{"serverless", "none"} {
+		dup := "Logs:\n" + entry("verif.example/main/dup/unrelated", "tiles", u.K1) + entry("verif.example/main/dup/twin", ft, u.K1) + entry("verif.example/main/dup/twin", ft, u.K2)
+		c12MainMustRefuse(run, "two-"+ft+"-entries-with-one-origin", []byte(dup))
+		run.Add("main_configurations", 1)
+	}
 }
+
+// c12MainMustRefuse: omniwitness.Main over a configuration in which two logs
+// would share an ID returns an error and never serves.
+func c12MainMustRefuse(run *ev.Run, tag string, cfgYAML []byte) {
+	saved := omniwitness.ConfigLogs
+	omniwitness.ConfigLogs = cfgYAML
+	defer func() { omniwitness.ConfigLogs = saved }()
+	ln, err := net.Listen("tcp", "127.0.0.1:0")
+	if err != nil {
+		ev.Internal("C12: listen: %v", err)
+	}
+	defer ln.Close()
+	ctx, cancel := context.WithCancel(context.Background())
+	defer cancel()
+	done := make(chan error, 1)
+	go func() {
+		defer func() {
+			if p := recover(); p != nil {
+				done <- fmt.Errorf("panic: %v", p)
+			}
+		}()
+		done <- omniwitness.Main(ctx, omniwitness.OperatorConfig{WitnessKeys: []note.Signer{u12W.Signer, u12W.CosigSigner}, WitnessVerifier: u12W.CosigVerif},
+			inmemory.NewPersistence(), ln, &http.Client{Transport: &pollRecorder{}})
+	}()
+	// A start-up refusal is immediate; a Main that serves answers its endpoint.
+	deadline := time.Now().Add(20 * time.Second)
+	for time.Now().Before(deadline) {
+		select {
+		case err := <-done:
+			if err == nil {
+				run.Report("duplicate-ids-not-refused config="+tag, "omniwitness.Main over a configuration in which two entries share an origin (hence an ID) returned without an error", map[string]any{"kind": "main-start"})
+			}
+			return
+		default:
+		}
+		if resp, err := (&http.Client{Timeout: 2 * time.Second}).Get("http://" + ln.Addr().String() + "/witness/v0/logs"); err == nil {
+			resp.Body.Close()
+			if resp.StatusCode == 200 {
+				run.Report("duplicate-ids-not-refused config="+tag, "omniwitness.Main over a configuration in which two entries share an origin (hence an ID) started and serves: one of the two silently replaced the other in the witness map", map[string]any{"kind": "main-start"})
+				cancel()
+				<-done
+				return
+			}
+		}
+		time.Sleep(50 * time.Millisecond)
+	}
+	run.Report("duplicate-ids-not-refused config="+tag, "omniwitness.Main over a configuration in which two entries share an ID neither returned an error nor served within 20 s", map[string]any{"kind": "main-start"})
+}
+
+var u12W = uni.New(ev.Seed(), 2, nil).W1
 
 // twinLeg (shared by C01 and C12): two configured logs with DIFFERENT IDs but
 // the same origin line (and key) - witness.Opts.KnownLogs allows it and the
